@@ -293,12 +293,18 @@ def _parse_block(lines):
                 opts["keep_attrs"] = True
             elif kw == "nocanary":
                 opts["nocanary"] = True
-            elif kw == "lift":
+            elif kw in ("lift", "lift-block"):
                 m = re.match(r"^(\w+)\s+/(.*)/\s*$", rest)
                 if not m:
                     raise UnitError("bad lift: " + ln)
                 opts.setdefault("lifts", {})[m.group(1)] = {"pat": m.group(2), "call": None, "head": None,
-                                                           "mutrefs": [], "contract": [], "serves": None}
+                                                           "mutrefs": [], "contract": [], "serves": None,
+                                                           "block": kw == "lift-block", "rw": []}
+            elif kw in ("lift-rw", "lift-rw?"):
+                m = re.match(r"^(\w+)\s+(\S+)\s+/(.*)/\s+=>\s?(.*)$", rest)
+                if not m:
+                    raise UnitError("bad lift-rw: " + ln)
+                opts["lifts"][m.group(1)]["rw"].append((m.group(2), m.group(3), m.group(4), kw.endswith("?")))
             elif kw == "lift-call":
                 n_, t_ = rest.split(None, 1)
                 opts["lifts"][n_]["call"] = t_
@@ -563,14 +569,25 @@ def build_fn(repo, file, path, opts, as_item=False):
         if not mm:
             raise LostAnchor("lift anchor /%s/ not found in %s :: %s" % (L["pat"], file, path))
         seg = bm0[mm.start():mm.end()]
-        po = mm.start() + seg.index("(")          # the `(` of `(|| ...`
-        bo = mm.start() + seg.rindex("{")         # the closure body's `{`
+        bo = mm.start() + seg.rindex("{")         # the closure / block body's `{`
         bc = match_brace(bm0, bo)
-        tail = re.match(r"\s*\)\s*\(\s*\)", bm0[bc + 1:])
-        if not tail:
-            raise Unsupported("R14: closure at /%s/ is not immediately invoked" % L["pat"])
-        end = bc + 1 + tail.end()
+        if L.get("block"):
+            po = bo                                   # a plain block expression `{ .. }`
+            end = bc + 1
+        else:
+            po = mm.start() + seg.index("(")          # the `(` of `(|| ...`
+            tail = re.match(r"\s*\)\s*\(\s*\)", bm0[bc + 1:])
+            if not tail:
+                raise Unsupported("R14: closure at /%s/ is not immediately invoked" % L["pat"])
+            end = bc + 1 + tail.end()
         cbody = body[bo:bc + 1]
+        for (rule_, pat_, repl_, opt_) in L.get("rw", []):
+            cbody, n_ = _apply_rw(cbody, pat_, repl_)
+            if n_ == 0 and opt_:
+                continue
+            if n_ == 0:
+                raise LostAnchor("lift-rw pattern /%s/ not found in lifted %s of %s :: %s" % (pat_, lname, file, path))
+            log.append((rule_, "[lifted %s] /%s/ => %s" % (lname, pat_, repl_), n_))
         for v in L["mutrefs"]:
             cm = mask(cbody)
             outp = []
